@@ -244,8 +244,14 @@ func genBP(r *simcore.Rand, tier string) any {
 				op.ImageAt = 1
 			}
 		}
-		if op.Kind != "restart" && r.Bool(0.12) {
-			op.ImageAt = r.Range(1, 6)
+		// crash inside an operation: mostly after its first store events (an Add has
+		// one to three, a reset up to a dozen)
+		pc := 0.10
+		if op.Kind == "head" || op.Kind == "reorg" {
+			pc = 0.30
+		}
+		if op.Kind != "restart" && op.Kind != "tip" && r.Bool(pc) {
+			op.ImageAt = []int{1, 1, 1, 2, 2, 3, 4, 6}[r.Intn(8)]
 		}
 		p.Ops = append(p.Ops, op)
 	}
